@@ -53,34 +53,34 @@ class VariableTransformer:
             plausible_upper_bounds = np.copy(upper_bounds)
 
         lb = (
-            lower_bounds.copy()
+            np.array(lower_bounds, dtype=float)
             if lower_bounds is not None
             else np.ones((1, D)) * -np.inf
         )
         ub = (
-            upper_bounds.copy()
+            np.array(upper_bounds, dtype=float)
             if upper_bounds is not None
             else np.ones((1, D)) * np.inf
         )
 
         plb = (
-            lower_bounds.copy()
+            np.array(lower_bounds, dtype=float)
             if (plausible_lower_bounds is None)
-            else plausible_lower_bounds.copy()
+            else np.array(plausible_lower_bounds, dtype=float)
         )
         pub = (
-            upper_bounds.copy()
+            np.array(upper_bounds, dtype=float)
             if (plausible_upper_bounds is None)
-            else plausible_upper_bounds.copy()
+            else np.array(plausible_upper_bounds, dtype=float)
         )
 
-        if np.isscalar(lb):
+        if np.ndim(lb) == 0:
             lb = lb * np.ones((1, D))
-        if np.isscalar(ub):
+        if np.ndim(ub) == 0:
             ub = ub * np.ones((1, D))
-        if np.isscalar(plb):
+        if np.ndim(plb) == 0:
             plb = plb * np.ones((1, D))
-        if np.isscalar(pub):
+        if np.ndim(pub) == 0:
             pub = pub * np.ones((1, D))
 
         # Save original vectors
